@@ -142,4 +142,33 @@ def legal (l0 : Char) : List Item → Bool
     g.all isBlank && R.wf && (!R.isSigned || signMayFollow (lastAfter l0 g)) &&
     legalAfter (lastAfter l0 g) R rest
 
+/-! ## the source tree of a block
+
+Brackets nest: an infix block is a sequence of source trees (`Src`): single tokens, `[ … ]`
+selectors, `( … )` s-expression calls and nested `{ … }` blocks. `flat` is the token sequence as
+written (brackets included), to which the spacing rules above apply. -/
+
+inductive Src where
+  | tok (t : Tok)               -- a name, numeral, operator, `,` or `;`
+  | arr (xs : List Src)         -- [ … ]
+  | call (xs : List Src)        -- ( … )
+  | block (xs : List Src)       -- { … }
+  deriving Repr
+
+mutual
+def Src.flat : Src → List Tok
+  | .tok t => [t]
+  | .arr xs => .punct '[' :: (flatL xs ++ [.punct ']'])
+  | .call xs => .punct '(' :: (flatL xs ++ [.punct ')'])
+  | .block xs => .punct '{' :: (flatL xs ++ [.punct '}'])
+def flatL : List Src → List Tok
+  | [] => []
+  | x :: r => x.flat ++ flatL r
+end
+
+/-- is the token a bracket? -/
+def Tok.isBracket : Tok → Bool
+  | .punct c => !(c == ',' || c == ';')
+  | _ => false
+
 end ZygoVerif.Spacing
